@@ -497,6 +497,9 @@ def translate(run: Run) -> bool:
                 + "Definition fit_prog : prog :=\n  " + pretty(term) + ".\n")
         run.gen("GenC11", text)
         run.extra["c11_program_events"] = len(tr.seen_events)
+        from harness.translate import c11_observers
+        if not c11_observers.translate(run):     # what the six observer methods do (coq/gen/GenC11Obs.v), fail closed
+            return False
         run.trusted.append("translator harness/translate/c11_run.py (python ast -> structured program of Api/RunProg.v: statements matched on "
                            "their normalised source text, tests on a closed table, inlining along the class bases read from the source; "
                            "the 'silent statement' whitelist of calls without State / generator access)")
